@@ -3,6 +3,7 @@ package main
 // Evaluation of contract expressions to SMT terms.
 
 import (
+	"os"
 	"fmt"
 	"go/constant"
 	"go/types"
@@ -1480,6 +1481,9 @@ func (fx *FnCtx) emitSpecFn(sf *SpecFn) {
 // "forall k: forall j: ..." hypotheses unused.
 func mkForall(bv string, guard T, body T) T {
 	plain := fmt.Sprintf("(forall ((%s Int)) %s)", bv, imp(guard, body))
+	if os.Getenv("GOVC_NO_FLATTEN") != "" {
+		return plain
+	}
 	inner := body
 	g2 := T("true")
 	if strings.HasPrefix(inner, "(=> ") {
